@@ -56,7 +56,7 @@ var c02Universe = func() []string {
 			set[string(p)] = true
 		}
 	}
-	for _, k := range []string{"A", "B", "d", "~", "\x01", "\xff", "aA", "abca", "abcc", "cccc", "aab"} {
+	for _, k := range []string{"A", "B", "d", "~", "\x01", "\xff", "aA", "abca", "abcc", "cccc", "aab", "x", "1"} {
 		set[k] = true
 	}
 	delete(set, "")
@@ -160,6 +160,11 @@ func c02Atoms() []c02Atom {
 		}
 	}
 	out = append(out, c02Atom{gen.In(K(), gen.Str("a"), gen.Str("a")), "mget", false})
+	// IN lists with items that are not literals: no exact key set can be pinned
+	out = append(out, c02Atom{gen.In(K(), gen.Value(), gen.Str("ab")), "opaque", false})
+	out = append(out, c02Atom{gen.In(K(), gen.Str("ab"), gen.Value()), "opaque", false})
+	out = append(out, c02Atom{gen.In(K(), gen.Call("lower", gen.Str("B")), gen.Str("c")), "opaque", false})
+	out = append(out, c02Atom{gen.In(K(), gen.Str("c"), gen.Bin("+", gen.Str("a"), gen.Str("b")), gen.Str("zz")), "opaque", false})
 	out = append(out, c02Atom{gen.In(K(), gen.Str("b"), gen.Str("zz"), gen.Str("ab")), "mget", false})
 	// specials around the empty literal
 	out = append(out, c02Atom{gen.Bin(">=", K(), gen.Str("")), "opaque", true})
